@@ -12,8 +12,9 @@ real run executes it on the sequential stand-in.  Checked against the harness' o
          in every schedule; and the real run's order respects it;
   (C02)  every executed call received the values of its argument predecessors in order (term structure of the result).
 
-Concrete case split (environment): XH_PKINDS, one letter per node in creation order, c = call, l = literal; XH_PFIX =
-edges forced present ("01,12"); XH_POUT = last | none | all | <index>.  Symbolic: presence of every other edge i<j, and for
+Concrete case split (environment): XH_PKINDS, one letter per node in creation order, c = call, l = literal; XH_PFIX /
+XH_PNO = edges forced present / absent ("01,12"); XH_PAK = all | lit (which edges have a symbolic argument-vs-dependency
+kind); XH_POUT = last | none | all | <index>.  Symbolic: presence of every other edge i<j, and for
 every edge from a literal or call INTO a call whether it is an argument edge or a plain add_dependency edge (edges into a
 literal are always add_dependency edges; the Plan API offers nothing else).
 """
@@ -30,6 +31,8 @@ from uberjob.graph import Call, Literal  # noqa: E402
 KINDS = os.environ.get("XH_PKINDS", "clcc")
 N = len(KINDS)
 FIX = {(int(e[0]), int(e[1])) for e in os.environ.get("XH_PFIX", "").split(",") if e}
+NO = {(int(e[0]), int(e[1])) for e in os.environ.get("XH_PNO", "").split(",") if e}  # edges forced absent
+AK = os.environ.get("XH_PAK", "all")  # all: argument-vs-dependency symbolic for every edge into a call | lit: only for edges FROM a literal (call -> call: argument)
 OUT = os.environ.get("XH_POUT", "last")
 PAIRS = [(i, j) for j in range(N) for i in range(j)]
 assert N <= 5
@@ -84,9 +87,13 @@ def c01_prune(e0: bool, e1: bool, e2: bool, e3: bool, e4: bool, e5: bool, e6: bo
     abits = [a0, a1, a2, a3, a4, a5, a6, a7, a8, a9]
     edges = {}  # (i, j) -> 'a' | 'd'
     for idx, (i, j) in enumerate(PAIRS):
+        if (i, j) in NO:
+            if ebits[idx] or abits[idx]:
+                return True
+            continue
         present = True if (i, j) in FIX else ebits[idx]
-        if idx >= len(PAIRS):
-            break
+        if (i, j) in FIX and ebits[idx]:
+            return True  # unused dimension pinned
         if not present:
             if abits[idx]:
                 return True  # unused dimension pinned
@@ -95,6 +102,10 @@ def c01_prune(e0: bool, e1: bool, e2: bool, e3: bool, e4: bool, e5: bool, e6: bo
             if abits[idx]:
                 return True
             edges[(i, j)] = "d"
+        elif AK == "lit" and KINDS[i] == "c":
+            if abits[idx]:
+                return True
+            edges[(i, j)] = "a"
         else:
             edges[(i, j)] = "a" if abits[idx] else "d"
     for idx in range(len(PAIRS), 10):
